@@ -58,6 +58,7 @@ def _strip(idx, shape, padded):
 
 
 def np_zip(eng, st, f, a, b, dtype=None):
+    st = eng.pst
     a, b = eng.deref(st, a), eng.deref(st, b)
     if not is_arr(a) and not is_arr(b):
         return f(a, b)
@@ -97,6 +98,7 @@ def _dt2(a, b):
 
 
 def np_map(eng, st, f, a, dtype=None):
+    st = eng.pst
     a = eng.deref(st, a)
     if not is_arr(a):
         return f(a)
@@ -112,6 +114,7 @@ def total_size(shape):
 
 def as_array(eng, st, x, dtype=None):
     """np.asarray semantics for lists / tuples / scalars"""
+    st = eng.pst
     x = eng.deref(st, x)
     if is_arr(x):
         return x
@@ -228,6 +231,7 @@ def norm_slice(eng, st, sl, n, label):
 
 
 def np_index(eng, st, arr, idx, line=0):
+    st = eng.pst
     arr = eng.deref(st, arr)
     idx = tuple(eng.deref(st, i) if isinstance(i, Ref) else i for i in idx)
     # boolean mask
@@ -313,6 +317,7 @@ def np_index(eng, st, arr, idx, line=0):
 def np_compress(eng, st, arr, mask):
     """a[mask]: order-preserving selection; selection map is uninterpreted with its
     defining properties as hypotheses"""
+    st = eng.pst
     n = arr.shape[0]
     key = getattr(mask, "_ckey", None)
     if key is None:
@@ -342,6 +347,7 @@ def np_compress(eng, st, arr, mask):
 
 
 def np_store(eng, st, arr, idx, v, node=None):
+    st = eng.pst
     line = getattr(node, "lineno", 0)
     v = eng.deref(st, v)
     if not isinstance(idx, tuple):
@@ -413,6 +419,7 @@ def _cast(v, dtype):
 
 
 def reduce_sum(eng, st, a, axis=None, keepdims=False):
+    st = eng.pst
     a = eng.deref(st, a)
     if not is_arr(a):
         return a
@@ -442,6 +449,7 @@ def reduce_sum(eng, st, a, axis=None, keepdims=False):
 
 
 def reduce_mean(eng, st, a, axis=None, keepdims=False):
+    st = eng.pst
     a = eng.deref(st, a)
     if not is_arr(a):
         return a
@@ -452,6 +460,7 @@ def reduce_mean(eng, st, a, axis=None, keepdims=False):
 
 
 def np_matmul(eng, st, a, b):
+    st = eng.pst
     a, b = eng.deref(st, a), eng.deref(st, b)
     if not (is_arr(a) and is_arr(b)):
         raise Unsupported("matmul of non-arrays")
@@ -469,6 +478,7 @@ def np_matmul(eng, st, a, b):
 
 def forall_elems(eng, st, a, pred):
     """z3 Bool: pred holds for every element of a"""
+    st = eng.pst
     a = eng.deref(st, a)
     if not is_arr(a):
         return eng.truthy(st, pred(a))
@@ -483,6 +493,7 @@ def forall_elems(eng, st, a, pred):
 
 
 def exists_elem(eng, st, a, pred):
+    st = eng.pst
     a = eng.deref(st, a)
     if not is_arr(a):
         return eng.truthy(st, pred(a))
@@ -522,6 +533,7 @@ def array_attr(eng, st, base, a, attr):
 
 
 def array_method(eng, st, bm, args, kwargs, line=0):
+    st = eng.pst
     a = eng.deref(st, bm.obj)
     name = bm.name
     if name == "mean":
@@ -580,6 +592,7 @@ def _dtype_kind(dt):
 
 
 def _astype(eng, st, a, dt):
+    st = eng.pst
     k = _dtype_kind(dt)
     if k == "int":
         return np_map(eng, st, V.trunc_int, a, "int")
